@@ -117,7 +117,11 @@ def run(prop, mod, tier, seed, replay, log, broken, workdir, t0):
     known_sigs = {s for s, _ in known}
     fails = [c for c in cases if c.verdict != "ok"]
     mism = [c for c in cases if c.model != c.impl]
-    sig = getattr(mod, "signature", lambda c: "unclassified")
+    _sig = getattr(mod, "signature", lambda c: "unclassified")
+
+    def sig(c):
+        s = _sig(c) or "unclassified"
+        return s[5:] if s.startswith("fail:") else s
     new_fails, known_hits = [], {}
     for c in fails:
         s = sig(c)
